@@ -73,6 +73,7 @@ class RunState:
         self.job_dirs: dict[str, tuple[str, str, str]] = {}
         self.job_outputs: dict[str, list[str]] = {}  # job -> output paths written
         self.lost_jobs: set[str] = set()
+        self.loss_events: dict[str, int] = {}  # job -> how many times existing data of that job was deleted
 
     def hit(self, job: str, phase: str):
         """Number of the attempt (0-based) for (job, phase) and the fault entry that applies, if any."""
@@ -224,8 +225,12 @@ def _lose(run: RunState, context, job: Job, what):
     otherwise a list of job names whose output directories are deleted."""
     targets = []
     if what == "all":
-        targets.append(os.path.dirname(job.output_directory) if job.output_directory else None)
-        run.lost_jobs |= set(run.job_dirs)
+        # every job directory created so far (not the workflow inputs, which live outside the work area)
+        for n, dirs in run.job_dirs.items():
+            targets.extend(d for d in dirs if d)
+            if n != job.name:
+                run.lost_jobs.add(n)
+        targets.extend(d for d in (job.input_directory, job.output_directory, job.tmp_directory) if d)
     else:
         names = [job.name] if what in (None, "own") else list(what)
         for n in names:
@@ -234,9 +239,18 @@ def _lose(run: RunState, context, job: Job, what):
                 targets.extend(d for d in dirs if d)
                 if n != job.name:
                     run.lost_jobs.add(n)
+    owner = {}
+    for n, dirs in run.job_dirs.items():
+        for d in dirs:
+            owner[d] = n
+    hit = set()
     for d in targets:
         if d and os.path.isdir(d):
+            if d in owner:
+                hit.add(owner[d])
             shutil.rmtree(d, ignore_errors=True)
+    for n in hit:
+        run.loss_events[n] = run.loss_events.get(n, 0) + 1
 
 
 class GateCommand(Command):
@@ -432,9 +446,27 @@ class WB:
     def port(self, name=None, cls=Port):
         return self.wf.create_port(cls=cls, name=name)
 
+    def local_location(self):
+        from streamflow.core.deployment import ExecutionLocation
+
+        return ExecutionLocation(name="__LOCAL__", deployment="kit", hostname="localhost", local=True)
+
+    def _file_tok(self, v, tag):
+        """python value -> token tree with KitFileToken leaves for {'class':'File','content':...} (file created under
+        <workdir>/__inputs__ and registered as an available primary copy)"""
+        if isinstance(v, list):
+            return ListToken([self._file_tok(x, tag) for x in v], tag=tag)
+        if isinstance(v, dict):
+            if v.get("class") == "File":
+                f = make_input_file(self.workdir, v["name"], v["content"], self.ctx)
+                self.ctx.data_manager.register_path(location=self.local_location(), path=f["path"], relpath=v["name"])
+                return KitFileToken(f["path"], tag=tag, recoverable=True)
+            return ObjectToken({k: self._file_tok(x, tag) for k, x in v.items()}, tag=tag)
+        return Token(v, tag=tag, recoverable=True)
+
     def inp(self, name, value, tag="0"):
         p = self.port(name=f"in-{name}")
-        tok = tok_from_value(value, tag=tag)
+        tok = self._file_tok(value, tag)
         self.inputs.append((p, tok))
         return p
 
